@@ -19,6 +19,20 @@ theorem C01_roundtrip (S : Schema) (fuel : Nat) (name : String) (ty : Ty) (v : V
   rw [decBytes_encBytes ty v hv] at h
   exact h
 
+/-- **every text is in range**: a string value is the UTF-8 bytes of its characters; whatever the
+characters (Unicode scalar values — Python cannot encode a lone surrogate), it is in the codec's
+domain as long as it has fewer than 2^32 bytes.  So the round trip holds for all strings, not for
+a 7-bit subset -/
+theorem C01_every_text (cs : List Nat) (hc : cs.all isScalar = true) (hl : (utf8Bytes cs).length < 2 ^ 32) :
+    wf .str (.str (utf8Bytes cs)) = true := by
+  simp only [wf, Bool.and_eq_true, decide_eq_true_eq]
+  exact ⟨hl, utf8Bytes_valid cs hc⟩
+
+/-- non-vacuity: `"°C €"` with the smiling face, as a struct field between two sub-byte fields -/
+example : wf (.field "a" 0 (.uint 3) (.field "s" 1 .str (.field "b" 2 (.uint 5) .unit)))
+    (.cons (.int 5) (.cons (.str (utf8Bytes [0xB0, 0x43, 0x20, 0x20AC, 0x1F600])) (.cons (.int 17) .nil))) = true := by
+  decide
+
 /-- the encoder never fails on an in-range value and its output has `⌈bits/8⌉` bytes -/
 theorem C01_encode_total (S : Schema) (fuel : Nat) (name : String) (ty : Ty) (v : Val)
     (hr : resolve S fuel (.struct name) = some ty) (hv : wf ty v = true) :
